@@ -192,6 +192,8 @@ func ruleC08(c *Ctx) {
 	// package-level table map
 	dt := readDefaultTables(c)
 	if dt != nil {
+		// "a freshly requested default table carries the pristine NCBI assignments": the literal itself
+		checkNCBITables(c, dt)
 		wr := globalWriters(c, "transform/codon", dt.globalName)
 		c.check(len(wr) == 0, "WRITERS", "default table map written only by its initialiser", dt.mapPos, "no assignment, map update or delete on "+dt.globalName+" outside init", strings.Join(wr, "; "))
 		// any other package-level variable of reference type in codon written by non-init code?
